@@ -318,13 +318,18 @@ class GraphSim:
             self.ctx.ev(actor, "noop", {"g": g.name})
             return ("noop",)
         if self.in_range and (so == -1) != (do == -1):
-            # an order port links to an order port only
-            so = do = -1 if (has_order(g.spec[s], "out") and has_order(g.spec[d], "in")) else (0 if so == -1 else so)
-            if do == -1 and not has_order(g.spec[d], "in"):
-                do = 0
-            if (so == -1) != (do == -1):
-                self.ctx.ev(actor, "noop", {"g": g.name})
-                return ("noop",)
+            # an order port links to an order port only: re-draw the odd end among the ports the op has
+            if has_order(g.spec[s], "out") and has_order(g.spec[d], "in") and ch.coin(1, 2, "both-order"):
+                so = do = -1
+            else:
+                ns, nd = g.spec[s][3], g.spec[d][2]
+                if (so == -1 and ns == 0) or (do == -1 and nd == 0):
+                    self.ctx.ev(actor, "noop", {"g": g.name})
+                    return ("noop",)
+                if so == -1:
+                    so = ch.draw(ns, "so-redraw")
+                if do == -1:
+                    do = ch.draw(nd, "do-redraw")
         if g.m.linked_from_out(s, so):
             self.ctx.probe("fan_out")
         if g.m.linked_from_in(d, do):
